@@ -45,6 +45,7 @@ type PtrV struct {
 	Idx   string
 	Elem  types.Type
 	IsNil string
+	OSeq  *OSeqV // element of a slice-typed field of an opaque value
 }
 
 type FuncV struct {
@@ -241,6 +242,12 @@ func splitTop(s string) []string {
 // ---- sorts for Go types ----
 
 func scalarSort(t types.Type) (string, bool) {
+	if _, isStruct := t.Underlying().(*types.Struct); isStruct {
+		if ot := lookupOpaque(t); ot != nil {
+			return ot.Sort, true
+		}
+		return "", false
+	}
 	switch u := t.Underlying().(type) {
 	case *types.Basic:
 		switch {
@@ -389,6 +396,9 @@ func (e *Engine) freshMap(s *State, mt *types.Map, hint string) Value {
 // zero value of a Go type.
 func (e *Engine) zero(s *State, t types.Type) Value {
 	if ss, ok := scalarSort(t); ok {
+		if ot := opaqueSort(ss); ot != nil {
+			return e.zeroOpaque(s, ot)
+		}
 		return Sc{zeroOfSort(ss), ss}
 	}
 	switch u := t.Underlying().(type) {
@@ -442,4 +452,23 @@ func sortedKeys(m map[string]string) []string {
 	}
 	sort.Strings(ks)
 	return ks
+}
+
+// zeroOpaque: the zero value of an opaque struct type.
+func (e *Engine) zeroOpaque(s *State, ot *OpaqueType) Value {
+	n := s.freshConst(strings.ToLower(ot.Sort)+"0", ot.Sort)
+	st := ot.T.Underlying().(*types.Struct)
+	for i := 0; i < st.NumFields(); i++ {
+		f := st.Field(i)
+		if ss, ok := scalarSort(f.Type()); ok {
+			if opaqueSort(ss) == nil {
+				s.assume(app("=", app(accName(ot.Sort, f.Name()), n), zeroOfSort(ss)))
+			}
+			continue
+		}
+		if _, ok := f.Type().Underlying().(*types.Slice); ok {
+			s.assume(app("=", app(accName(ot.Sort, f.Name())+".len", n), "0"))
+		}
+	}
+	return Sc{n, ot.Sort}
 }
